@@ -47,6 +47,19 @@ CHECKS = {
          "For seeded databases and read-query lists, 2-4 reader threads run under a controlled scheduler; every result must equal the sequential baseline and none may fail. Failures carry the shuttle schedule and replay exactly.",
          "Readers only (documented usage). Interleaving is controlled at simulated I/O calls; code between two I/O calls runs atomically. std::sync::Mutex in FileStorage is only try_locked, so it needs no model.", "6/C23"),
 
+ "C27": ("raftsim", "exploration", "deterministic simulation: the real raft.rs under a discrete-event adversarial network and a virtual clock, invariant checked after every event",
+         "Seeded fault schedules (per-message drop/duplicate/delay-reorder, partitions and heals, forward clock jumps, stalled nodes, client appends at every node that believes it leads) over 3- and 5-node clusters; after every event no two nodes may be, or ever have been, leader for the same term.",
+         "No crash/restart (not in the statement; term and vote are not persisted). Log store is a 40-line model of ClusterStorage.", "6/C27"),
+ "C28": ("raftsim", "exploration", "deterministic simulation: the real raft.rs under a discrete-event adversarial network and a virtual clock, invariant checked after every event",
+         "Same simulator; after every event: no two nodes have committed different entries at one index, no node has committed two entries at one index, no commit index decreased. Payloads are unique per append. Runs are cut at the first recorded root-cause deviation (ghost monitor G3/G10) of the known finding.",
+         "As C27. Known finding: no previous-entry check in the protocol (known_findings.jsonl).", "6/C28"),
+ "C29": ("raftsim", "exploration", "deterministic simulation: the real raft.rs under a discrete-event adversarial network and a virtual clock, invariant checked at every election",
+         "Same simulator; whenever a node becomes leader of term T, every entry that a leader of an earlier term had committed must be in its log at the same index with the same term and payload.",
+         "'Later leader' is read as 'leader of a later term' (leader completeness); a stale-term candidate that wins with a delayed vote after a newer leader committed is counted as an observation, not a violation (DESIGN.md).", "6/C29"),
+ "C30": ("raftsim", "exploration", "deterministic simulation: bounded liveness of the real raft.rs in simulated time once faults stop",
+         "Fault-free schedules from the initial state and from the state left by a seeded faulty prefix; 60 simulated seconds after the last fault exactly one leader must exist and entries appended at it afterwards must be committed on every node within a further 35 simulated seconds.",
+         "Only timer configurations in which every node's election timeout fits inside the term timeout. Known finding: reconcile loop without progress (ghost monitor G10).", "6/C30"),
+
  "C04": ("dbsim", "exploration", "deterministic simulation: seeded storage histories with clean restarts, I/O noise and forced contended reads, checked operation by operation against a byte-level reference model",
          "Seeded search over storage-operation histories on all three back-ends; after every operation every live value is read back and compared with the model, removed values must be unreadable, and after defragmentation / restart the file must hold no unused space.",
          "Valid requests only; fault-free configuration (the crash configuration is C01). The model is 60 lines and mirrors the documented semantics of insert-at/move/resize.", "6/C04"),
